@@ -8,14 +8,14 @@ for d in sorted(glob.glob('/verif/seeded/*/')):
 out=["# Seeded changes and what catches them","",
 "Every entry is a change to orda-io/orda that compiles, passes the 53 baseline tests and breaks one of the",
 "given properties only when something specific lines up. All were written by fresh sub-agents that saw only the",
-"property record and a scratch worktree of the repository (nothing from /verif); the second and third wave were also given the",
+"property record and a scratch worktree of the repository (nothing from /verif); the later waves were also given the",
 "one-line descriptions of the earlier changes, so as not to repeat them. Each was confirmed in a scratch worktree before it was kept",
 "(`tools/try_mutant.sh`: patch applies to the current HEAD, both modules build, existing tests pass, the",
 "demonstration passes without the change and fails with it; demonstrations that need a MongoDB were ported to",
 "`scenario.json` and run with `./check --scenario`, see DESIGN.md 11.2, or - third wave - replaced by `replay.json`, a minimised plan",
 "written by the detecting check: `tools/replay_mutant.sh` confirms that `./check --replay` passes on the unchanged tree and reports the violation with the change). `patch.diff` applies to /repo with",
 "`git -C /repo apply`; the checks are run against a worktree through `VERIF_REPO=<dir> ./check <id> quick`.","",
-"Summary: %d changes (three waves of sub-agents). Caught by the checks as they were when the change arrived: %d; missed first and caught after the machinery was extended (the extension is named in the last column): %d; break their property only through a dimension that belongs to another property's quantifier and are caught by that property's check: %d; NOT detected (reason in the last column): %d."%(
+"Summary: %d changes (four waves of sub-agents). Caught by the checks as they were when the change arrived: %d; missed first and caught after the machinery was extended (the extension is named in the last column): %d; break their property only through a dimension that belongs to another property's quantifier and are caught by that property's check: %d; NOT detected (reason in the last column): %d."%(
  len(rows), sum(1 for _,m in rows if m['note'].startswith('caught as built')), sum(1 for _,m in rows if m['note'].lower().startswith('missed')), sum(1 for _,m in rows if m['note'].startswith('not ') or m['note'].startswith('bonus')), sum(1 for _,m in rows if m['note'].startswith('NOT DETECTED'))),
 "","| id | change | needs | detected by | history |","|----|--------|-------|-------------|---------|"]
 for id,m in rows:
